@@ -139,6 +139,11 @@ def build_all_labware(specs):
             shared = arrays.get(s["share_init_with"])
         elif s.get("init") is not None and s["init"]["shape"] != "scalar":
             arrays[k] = numpy.array(np_arg(s["init"], to_float), dtype=float)
+            if s.get("init_dtype"):
+                narrow = arrays[k].astype(s["init_dtype"])
+                if not (narrow.astype(float) == arrays[k]).all():
+                    raise CaseError("initial volumes not representable in " + s["init_dtype"])
+                arrays[k] = narrow
             shared = arrays[k]
         lws.append(build_labware(s, shared))
     return lws
@@ -385,7 +390,10 @@ def run_program(case):
 
     capture()
     obs["initial"] = [{"vols": vols_obs(lw), "comp": comp_obs(lw), "labels": list(lw._labels)} for lw in lws]
-    for op in case["ops"]:
+    for i_op, op in enumerate(case["ops"]):
+        if case.get("switch_at") is not None and i_op == case["switch_at"]:
+            # a new worklist of another device type continues on the same labware objects
+            wl = build_worklist(case["switch_dev"], case["wl"])
         if rounding_guard(op, wl):
             return {"drop": "rounding"}
         n0 = len(wl)
